@@ -93,7 +93,7 @@ pub struct Reader<R: Read> {
     inner: R,
     entry: RpmPayloadEntry,
     file_size: u64,
-    bytes_read: u32,
+    bytes_read: u64,
 }
 
 /// Builds metadata for one entry to be written into an archive.
@@ -408,7 +408,7 @@ impl<R: Read> Reader<R> {
     /// Finishes reading this entry and returns the underlying reader in a
     /// position ready to read the next entry (if any).
     pub fn finish(mut self) -> io::Result<R> {
-        let remaining = self.file_size - self.bytes_read as u64;
+        let remaining = self.file_size - self.bytes_read;
         if remaining > 0 {
             io::copy(&mut self.inner.by_ref().take(remaining), &mut io::sink())?;
         }
@@ -421,11 +421,11 @@ impl<R: Read> Reader<R> {
 
 impl<R: Read> Read for Reader<R> {
     fn read(&mut self, buf: &mut [u8]) -> io::Result<usize> {
-        let remaining = self.file_size as usize - self.bytes_read as usize;
-        let limit = buf.len().min(remaining);
+        let remaining = self.file_size - self.bytes_read;
+        let limit = (buf.len() as u64).min(remaining) as usize;
         if limit > 0 {
             let num_bytes = self.inner.read(&mut buf[..limit])?;
-            self.bytes_read += num_bytes as u32;
+            self.bytes_read += num_bytes as u64;
             Ok(num_bytes)
         } else {
             Ok(0)
